@@ -510,7 +510,26 @@ def run(ck, prog, ctx):
         want = {"split": {"\n\n"}, "strip_prefix": {"[Term]\n"}, "starts_with": {"format-version: 1.2"}}
         got = {k: {x.replace("\n", "\\n").replace(chr(10), "\\n") for x in v} for k, v in lits.items()}
         want2 = {k: {x.replace("\n", "\\n") for x in v} for k, v in want.items()}
-        ck.ob("TABLE", "obo/stanza-literals", got == want2, "read_obo_file splits stanzas on %s, accepts stanzas starting with %s and the header starting with %s" % (sorted(got.get("split", [])), sorted(got.get("strip_prefix", [])), sorted(got.get("starts_with", []))), where=ro_b.where())
+        if not got:
+            # the splitting / classification moved into private helpers or a private iterator of the module: the literals are looked for module-wide,
+            # and only their presence is judged there (other functions of the module have prefixes of their own)
+            lits2 = {}
+            for fb in prog.production():
+                if fb.file == ro_b.file:
+                    for bi, t in fb.calls():
+                        if t.callee.method in ("strip_prefix", "starts_with", "split") and (t.callee.impl_self or "").startswith("str"):
+                            for a in t.args[1:]:
+                                v = const_str_of(fb, pvn, a)
+                                if v is not None:
+                                    lits2.setdefault(t.callee.method, set()).add(v)
+            got2 = {k: {x.replace("\n", "\\n").replace(chr(10), "\\n") for x in v} for k, v in lits2.items()}
+            okc = all(want2[k] <= got2.get(k, set()) for k in want2) or all(any(w in got2.get(k2, set()) for k2 in got2) for k in want2 for w in want2[k])
+            if okc:
+                ck.ob("TABLE", "obo/stanza-literals", True, "the obo module splits stanzas on \\n\\n, recognises `[Term]\\n` stanzas and the `format-version: 1.2` header (in helpers of read_obo_file)", where=ro_b.where())
+            else:
+                ck.undecided("TABLE", "obo/stanza-literals", "stanza splitting / classification literals not recognised in read_obo_file or its module (found %s)" % {k: sorted(v) for k, v in got2.items()}, where=ro_b.where())
+        else:
+            ck.ob("TABLE", "obo/stanza-literals", got == want2, "read_obo_file splits stanzas on %s, accepts stanzas starting with %s and the header starting with %s" % (sorted(got.get("split", [])), sorted(got.get("strip_prefix", [])), sorted(got.get("starts_with", []))), where=ro_b.where())
         # the header's version is stored with set_hpo_version
         sv = [t for fb in prog.family(ro_b) for _, t in fb.calls() if (t.callee.res or "").endswith("::set_hpo_version")]
         okv = False
